@@ -359,3 +359,29 @@ func (r *rig) dump() string {
 	}
 	return s
 }
+
+// bounded runs a set-up call (authenticate, meta object lookup) that is itself a call
+// through the code under test: if it does not return, that is an observation, not a hang
+// of the harness.
+func bounded(what string, f func() error) error {
+	ch := make(chan error, 1)
+	go func() { ch <- f() }()
+	select {
+	case err := <-ch:
+		return err
+	case <-time.After(tBound):
+		return fmt.Errorf("%s did not return within %v", what, tBound)
+	}
+}
+
+// setupClient authenticates connection c and looks the probe service up, through the real client code.
+func (r *rig) setupClient(c *hconn) (*bus.Cache, error) {
+	if err := bounded("authenticate call", func() error { return bus.AuthenticateUser(c.ep, "u", "t") }); err != nil {
+		return nil, err
+	}
+	cache := bus.NewCache(c.ep)
+	if err := bounded("metaObject call", func() error { return cache.Lookup("probe", r.svcID) }); err != nil {
+		return nil, err
+	}
+	return cache, nil
+}
